@@ -1,7 +1,7 @@
 (* C06 — LLO state changes need more than f votes or a verified attestation. *)
 From stdpp Require Import gmap.
 From DS Require Import Base Decimal StreamValue Aggregators Outcome OutcomeProofs StepTheorems NvHistory.
-From DS Require OutcomeEndToEnd ReportsNoPanic NvE2E.
+From DS Require OutcomeEndToEnd ReportsNoPanic NvE2E BytesHistory PluginOutcomeBytes NvWire.
 Open Scope Z_scope.
 
 (* a channel is added, replaced or removed only with more than f votes for exactly that change
@@ -94,3 +94,40 @@ Example C06_nv :
   o_defs p1 !! 7 = None /\ o_defs p2 !! 7 = Some nv_def /\ o_stage p6 = Retired /\
   o_defs p7 !! 7 = Some nv_def /\ o_defs p7 !! 8 = None.
 Proof. vm_compute. repeat split; reflexivity. Qed.
+
+(* the same two vote laws ON THE WIRE (BytesHistory): one successful call of Plugin.Outcome, bytes in and bytes out; votes are
+   counted over the observation bytes that decode *)
+Theorem C06_def_change_needs_votes_on_the_wire : forall h check cf (b : BytesHistory.bevent) c,
+  BytesHistory.check_typed check -> BytesHistory.bvalid h check cf b ->
+  o_defs (BytesHistory.dec_or_initial cf (BytesHistory.bv_next b)) !! c <> o_defs (BytesHistory.dec_or_initial cf (BytesHistory.bv_prev b)) !! c ->
+  exists rr obs, accept_observations (c_has_pred cf) (map (PluginOutcomeBytes.obs_of_bytes check) (BytesHistory.bv_obs b)) = Ok (rr, obs) /\
+    o_stage (BytesHistory.dec_or_initial cf (BytesHistory.bv_prev b)) <> Retired /\
+    o_stage (BytesHistory.dec_or_initial cf (BytesHistory.bv_next b)) <> Retired /\
+    ((o_defs (BytesHistory.dec_or_initial cf (BytesHistory.bv_next b)) !! c = None /\ (c_f cf < remove_votes obs c)%nat) \/
+     (exists d, o_defs (BytesHistory.dec_or_initial cf (BytesHistory.bv_next b)) !! c = Some d /\ (c_f cf < update_votes obs c d)%nat)).
+Proof. exact BytesHistory.def_change_needs_votes_on_the_wire. Qed.
+Print Assumptions C06_def_change_needs_votes_on_the_wire.
+
+Theorem C06_stage_change_needs_votes_or_attestation_on_the_wire : forall h check cf (b : BytesHistory.bevent),
+  BytesHistory.check_typed check -> BytesHistory.bvalid h check cf b ->
+  o_stage (BytesHistory.dec_or_initial cf (BytesHistory.bv_next b)) <> o_stage (BytesHistory.dec_or_initial cf (BytesHistory.bv_prev b)) ->
+  exists rr obs, accept_observations (c_has_pred cf) (map (PluginOutcomeBytes.obs_of_bytes check) (BytesHistory.bv_obs b)) = Ok (rr, obs) /\
+    ((o_stage (BytesHistory.dec_or_initial cf (BytesHistory.bv_prev b)) = Staging /\
+      (o_stage (BytesHistory.dec_or_initial cf (BytesHistory.bv_next b)) = Production \/
+       (o_stage (BytesHistory.dec_or_initial cf (BytesHistory.bv_next b)) = Retired /\ (c_f cf < retire_votes obs)%nat)) /\
+      c_has_pred cf = true /\
+      exists va ob, Some ob ∈ map (PluginOutcomeBytes.obs_of_bytes check) (BytesHistory.bv_obs b) /\ ob_att ob = GoodAttest va) \/
+     (o_stage (BytesHistory.dec_or_initial cf (BytesHistory.bv_prev b)) = Production /\
+      o_stage (BytesHistory.dec_or_initial cf (BytesHistory.bv_next b)) = Retired /\ (c_f cf < retire_votes obs)%nat)).
+Proof. exact BytesHistory.stage_change_needs_votes_or_attestation_on_the_wire. Qed.
+Print Assumptions C06_stage_change_needs_votes_or_attestation_on_the_wire.
+
+(* non-vacuity on the wire (props/NvWire.v): round 2 as bytes changes the definition of channel 7, round 6 as bytes retires *)
+Example C06_nv_on_the_wire :
+  BytesHistory.bvalid nv_h NvWire.w_check nv_cf NvWire.w_e2 /\
+  o_defs (BytesHistory.dec_or_initial nv_cf (BytesHistory.bv_prev NvWire.w_e2)) !! 7 = None /\
+  o_defs (BytesHistory.dec_or_initial nv_cf (BytesHistory.bv_next NvWire.w_e2)) !! 7 = Some nv_def /\
+  BytesHistory.bvalid nv_h NvWire.w_check nv_cf NvWire.w_e6 /\
+  o_stage (BytesHistory.dec_or_initial nv_cf (BytesHistory.bv_prev NvWire.w_e6)) = Production /\
+  o_stage (BytesHistory.dec_or_initial nv_cf (BytesHistory.bv_next NvWire.w_e6)) = Retired.
+Proof. destruct NvWire.w_votes as (H1 & H2 & H3 & H4 & H5 & H6 & _). exact (conj H1 (conj H2 (conj H3 (conj H4 (conj H5 H6))))). Qed.
